@@ -1,7 +1,9 @@
 #!/bin/bash
 # Builds the simulator test binaries from /repo's current working tree (tag verif) with the
 # harness sources in /verif/sim overlaid as the virtual package fhirpath/verifsim.
-# usage: build_sim.sh [plain|race|both]
+# usage: build_sim.sh [plain|race|both|instr|all]
+#   instr: additionally rewrites the library sources (copies, via the overlay) so that a yield
+#          point precedes every statement touching process-wide state (tools/instrument)
 set -euo pipefail
 export GOFLAGS=-mod=mod GOPROXY=off GOSUMDB=off GOTOOLCHAIN=local
 V=$(cd "$(dirname "$0")" && pwd)
@@ -15,13 +17,19 @@ rep={}
 for f in sorted(os.listdir(os.path.join(v,'sim'))):
     if f.endswith('.go'):
         rep[os.path.join(r,'fhirpath/verifsim',f)]=os.path.join(v,'sim',f)
+rep[os.path.join(r,'internal/verifyield/yield.go')]=os.path.join(v,'aux/verifyield/yield.go')
 json.dump({'Replace':rep},open(os.path.join(b,'overlay.json'),'w'),indent=1)
 PY
 what=${1:-both}
 cd "$R"
-if [ "$what" = plain ] || [ "$what" = both ]; then
+if [ "$what" = plain ] || [ "$what" = both ] || [ "$what" = all ]; then
   go1.26.8 test -c -vet=off -tags verif -overlay="$B/overlay.json" -o "$B/sim.test" ./fhirpath/verifsim/
 fi
-if [ "$what" = race ] || [ "$what" = both ]; then
+if [ "$what" = race ] || [ "$what" = both ] || [ "$what" = all ]; then
   go1.26.8 test -c -race -vet=off -tags verif -overlay="$B/overlay.json" -o "$B/sim.race.test" ./fhirpath/verifsim/
+fi
+if [ "$what" = instr ] || [ "$what" = all ]; then
+  (cd "$V/tools/instrument" && go1.26.8 build -o "$B/instrument" .)
+  "$B/instrument" -repo "$R" -out "$B/instr" -overlay-in "$B/overlay.json" -overlay-out "$B/overlay_instr.json"
+  go1.26.8 test -c -vet=off -tags verif -overlay="$B/overlay_instr.json" -o "$B/sim.instr.test" ./fhirpath/verifsim/
 fi
